@@ -200,7 +200,7 @@ impl Model for MGolden {
     }
     fn actions(&self, st: &GSt) -> Vec<Codec> {
         match st {
-            GSt::Entry(i) if self.entries[*i]["kind"] == "value" => vec![Codec::Bytes, Codec::Bare, Codec::Json],
+            GSt::Entry(i) if self.entries[*i]["kind"] == "value" => vec![Codec::Bytes, Codec::Bare, Codec::Json, Codec::JsonReader, Codec::JsonValue],
             _ => vec![],
         }
     }
@@ -245,6 +245,15 @@ impl Model for MGolden {
                 }
                 Ok(Ok(v)) => match recode {
                     None => {
+                        // the pinned human readable documents are also read through a reader and as a parsed value
+                        if c == Codec::Json {
+                            for alt in [Codec::JsonReader, Codec::JsonValue] {
+                                if ty.codecs().contains(&alt) {
+                                    let r = ty.decode(alt, &bytes).map_err(|p| p).and_then(|r| r).and_then(|v2| v2.encode(c));
+                                    o.expect(&format!("C18:golden-value-still-accepted:{}:{:?}", tn, alt), matches!(&r, Ok(b) if *b == bytes), "decodes to the pinned value", &format!("{:?}", r.err()));
+                                }
+                            }
+                        }
                         let re = v.encode(c);
                         let same = matches!(&re, Ok(b) if *b == bytes);
                         o.outcome(if same { "value:decodes-and-reencodes" } else { "value:reencodes-differently" });
@@ -317,7 +326,8 @@ impl<C: Suite> MExchange<C> {
         MExchange {
             seed,
             sks: [3usize, 2].iter().map(|i| sk_from_be::<C>(&ka.be[*i]).unwrap()).collect(),
-            lens: vec![0, 5, 30, 31, 32, 33, 45, 127, 128, 200, 16383, 16384, 65535, 65536, 65537, 2097151, 2097152],
+            // the first 17 lengths run the full matrix; the dense band behind them runs with one key, one identifier, one entropy answer
+            lens: [0usize, 5, 30, 31, 32, 33, 45, 127, 128, 200, 16383, 16384, 65535, 65536, 65537, 2097151, 2097152].into_iter().chain(dense_lens()).collect(),
             ids: vec![vec![], b"id".to_vec(), data(seed, "c18-id", 64)],
         }
     }
@@ -340,8 +350,14 @@ impl<C: Suite> Model for MExchange<C> {
             for k in 0..self.sks.len() {
                 for e in 0..3 {
                     for (li, _) in self.lens.iter().enumerate() {
+                        if li >= 17 && (k > 0 || e > 0) {
+                            continue;
+                        }
                         v.push(XSt { kind: Kind::SignCrypt, s, k, len: li, id: 0, e, reverse: false });
                         for id in 0..self.ids.len() + SPECIAL_MESSAGES.len() {
+                            if li >= 17 && id != 1 {
+                                continue;
+                            }
                             v.push(XSt { kind: Kind::TimeLock, s, k, len: li, id, e, reverse: false });
                         }
                     }
